@@ -1,4 +1,5 @@
 """C10 - message framing survives any segmentation and detects any truncation (STREAM)."""
+import os
 import itertools
 
 from ..stream import (ScriptedSocket, CaptureSocket, Budget, WouldBlock, compositions, cuts_to_segments,
@@ -117,7 +118,7 @@ def compact(segs):
 
 
 def run_one(ctx, kind, msgs, data, ends, segs, ending, t):
-    sock = ScriptedSocket(data[:t], segs, ending)
+    sock = ScriptedSocket(data[:t], segs, ending, budget=2 * len(data) + 1000)      # more calls than bytes means the reader spins
     got, end = read_all(sock, len(msgs))
     ctx.count()
     ctx.outcome('%s:%s:%d' % (kind, end, len(got)))
@@ -137,9 +138,73 @@ def materialise(spec):
 
 
 SHORT = [[None], [0], [None, None]]
-SHORT_THOROUGH = [[None, 0], [0, None, None][:2] + [None]]
+SHORT_THOROUGH = [[None, 0], [0, None, None]]
 LONG_QUICK = [[0, 'ab'], [b''], [(1, [2], {'k': 3})], [None, 1, 'x', [2]], [{'bytes': 65537}]]
 LONG_THOROUGH = [[{'bytes': 300 * 1024}, None], [{'bytes': 70000}, {'obj': 5}, 'z'], [{'bytes': 1}, {'bytes': 255}, {'bytes': 256}, {'bytes': 65536}]]
+
+
+class _Collector:
+    """Stand-in for the check context inside a worker process."""
+
+    def __init__(self):
+        self.n = 0
+        self.outcomes = {}
+        self.viol = []
+
+    def count(self, n=1):
+        self.n += n
+
+    def outcome(self, k):
+        self.outcomes[k] = self.outcomes.get(k, 0) + 1
+
+    def violation(self, sig, case, observed, expected, engine=None):
+        if len(self.viol) < 5:
+            self.viol.append((sig, case, observed, expected))
+
+
+def _segs_of_mask(mask, n):
+    segs = []
+    run = 1
+    for i in range(n - 1):
+        if mask >> i & 1:
+            segs.append(run)
+            run = 1
+        else:
+            run += 1
+    segs.append(run)
+    return segs
+
+
+def _comp_chunk(args):
+    spec, lo, hi = args
+    msgs = materialise(spec)
+    data, ends = build_stream(msgs)
+    n = len(data)
+    col = _Collector()
+    for mask in range(lo, hi):
+        run_one(col, 'segmentation', msgs, data, ends, _segs_of_mask(mask, n), 'FIN', n)
+    return col.n, col.outcomes, col.viol
+
+
+def all_compositions_parallel(ctx, spec, msgs, data, ends):
+    """All 2^(n-1) segmentations of a short stream, sharded over the cores (same order-independent enumeration)."""
+    import multiprocessing
+    n = len(data)
+    total = 1 << (n - 1)
+    nchunks = 256
+    step = (total + nchunks - 1) // nchunks
+    jobs = [(spec, lo, min(total, lo + step)) for lo in range(0, total, step)]
+    done = 0
+    with multiprocessing.get_context('fork').Pool(min(16, os.cpu_count() or 4)) as pool:
+        for cnt, outcomes, viol in pool.imap_unordered(_comp_chunk, jobs):
+            ctx.count(cnt)
+            done += cnt
+            for k, v in outcomes.items():
+                ctx.outcomes[k] = ctx.outcomes.get(k, 0) + v
+            for sig, case, observed, expected in viol:
+                ctx.violation(sig, case, observed, expected, engine='STREAM')
+    ctx.extra.setdefault('parallel_composition_streams', []).append({'msgs': describe(msgs), 'stream_len': n, 'segmentations': done})
+    return done
 
 
 def run(ctx):
@@ -157,10 +222,16 @@ def run(ctx):
         data, ends = build_stream(msgs)
         n = len(data)
         ctx.sample({'msgs': describe(msgs), 'stream_len': n, 'mode': 'all %d compositions + all truncations' % (1 << (n - 1))})
-        for segs in compositions(n):
-            run_one(ctx, 'segmentation', msgs, data, ends, segs, 'FIN', n)
-            ctx.distinct(('s', tuple(spec_key(spec)), tuple(segs)))
-            nshort += 1
+        if n > 18:
+            k = all_compositions_parallel(ctx, spec, msgs, data, ends)
+            nshort += k
+            ctx.distinct(('s-all', tuple(spec_key(spec)), k))
+            ctx.extra['distinct_in_parallel_shards'] = ctx.extra.get('distinct_in_parallel_shards', 0) + k
+        else:
+            for segs in compositions(n):
+                run_one(ctx, 'segmentation', msgs, data, ends, segs, 'FIN', n)
+                ctx.distinct(('s', tuple(spec_key(spec)), tuple(segs)))
+                nshort += 1
         # every truncation offset x every segmentation of the delivered prefix (bounded by 2^(t-1))
         for t in range(0, n):
             for ending in ('FIN', 'RST'):
@@ -175,7 +246,7 @@ def run(ctx):
         msgs = materialise(spec)
         data, ends = build_stream(msgs)
         n = len(data)
-        offs = interesting_offsets(n, ends, margin=16 if not ctx.quick else 6)
+        offs = interesting_offsets(n, ends, margin=9 if not ctx.quick else 6)
         if ctx.quick and len(offs) > 70:
             # keep everything near headers/boundaries, thin the powers of two
             near = [o for o in offs if any(abs(o - b) <= 6 for b in [0] + ends)]
